@@ -270,7 +270,40 @@ def explore(thunk, pre=(), prune_ms=250, max_paths=4000, history=False, label=No
         fps = [(p['kind'], ST.fingerprint(p['val'])) for p in out]
         for h in hout:
             verdict = 'dependent'
-            if not ST.has_history(ST.terms_of(h['val'])):
+            if ST.has_history(ST.terms_of(h['val'])):
+                # history symbols remain (e.g. a memo keyed on a DERIVED quantity n(f): the hit literal is n(f__h) == n(f), which no
+                # substitution solves).  Semantic criterion: under the path condition the result equals, term by term, the result of a
+                # plain path whose condition it implies.
+                shp = (h['kind'], ST.shape(h['val']))
+                th = ST.terms_of(h['val'])
+                good = []
+                for p_ in out:
+                    if (p_['kind'], ST.shape(p_['val'])) != shp:
+                        continue
+                    tp = ST.terms_of(p_['val'])
+                    if len(tp) != len(th):
+                        continue
+                    sk = z3.Solver()
+                    sk.add(*pre)
+                    sk.add(*h['pc'])
+                    sk.add(*p_['pc'])
+                    if zcheck(sk, 2000) == z3.unsat:
+                        continue                      # the two paths exclude each other
+                    eqs = [a_ == b_ for a_, b_ in zip(th, tp) if not a_.eq(b_)]
+                    try:
+                        ok_ = not eqs or prove_abs(z3.And(*eqs), list(pre) + list(h['pc']) + list(p_['pc']), timeout=10000)['result'] == 'discharged'
+                    except EngineError:
+                        ok_ = False
+                    if ok_:
+                        good.append(p_)
+                if good:
+                    s2 = z3.Solver()
+                    s2.add(*pre)
+                    s2.add(*h['pc'])
+                    s2.add(z3.Not(z3.Or(*[z3.And(*p_['pc']) if p_['pc'] else z3.BoolVal(True) for p_ in good])))
+                    rr = zcheck(s2, 5000)
+                    verdict = 'independent' if rr == z3.unsat else ('dependent' if rr == z3.sat else 'unknown')
+            elif True:
                 key = (h['kind'], ST.fingerprint(h['val']))
                 same = [p for p, k in zip(out, fps) if k == key]
                 if same:
@@ -1203,7 +1236,7 @@ MPFN = dict(sin=mp.sin, cos=mp.cos, tan=mp.tan, atan=mp.atan, atan2=mp.atan2, as
             sinh=mp.sinh, cosh=mp.cosh, log=mp.log, exp=mp.exp, atanh=mp.atanh, asinh=mp.asinh)
 
 
-def evaluate(t, env, dps=50, exact_round=False):
+def evaluate(t, env, dps=50, exact_round=False, tol=None):
     """evaluate a z3 term with the TRUE functions (mpmath, dps digits); env: symbol name -> value / callable"""
     mp.mp.dps = dps
     memo = {}
@@ -1262,9 +1295,17 @@ def evaluate(t, env, dps=50, exact_round=False):
             elif kd == z3.Z3_OP_IS_INT:
                 r = a[0] == mp.floor(a[0])
             elif kd in (z3.Z3_OP_LE, z3.Z3_OP_LT, z3.Z3_OP_GE, z3.Z3_OP_GT):
-                r = {z3.Z3_OP_LE: a[0] <= a[1], z3.Z3_OP_LT: a[0] < a[1], z3.Z3_OP_GE: a[0] >= a[1], z3.Z3_OP_GT: a[0] > a[1]}[kd]
+                if tol is not None and not isinstance(a[0], bool) and not isinstance(a[1], bool):
+                    # tolerant reading (numeric triage of a goal): a comparison that holds up to the evaluation noise counts as holding
+                    sl = tol * (1 + abs(a[0]) + abs(a[1]))
+                    r = {z3.Z3_OP_LE: a[0] <= a[1] + sl, z3.Z3_OP_LT: a[0] < a[1] + sl, z3.Z3_OP_GE: a[0] >= a[1] - sl, z3.Z3_OP_GT: a[0] > a[1] - sl}[kd]
+                else:
+                    r = {z3.Z3_OP_LE: a[0] <= a[1], z3.Z3_OP_LT: a[0] < a[1], z3.Z3_OP_GE: a[0] >= a[1], z3.Z3_OP_GT: a[0] > a[1]}[kd]
             elif kd == z3.Z3_OP_EQ:
-                r = a[0] == a[1]
+                if tol is not None and not isinstance(a[0], bool) and not isinstance(a[1], bool):
+                    r = abs(a[0] - a[1]) <= tol * (1 + abs(a[0]) + abs(a[1]))
+                else:
+                    r = a[0] == a[1]
             elif kd == z3.Z3_OP_DISTINCT:
                 r = a[0] != a[1]
             elif kd == z3.Z3_OP_NOT:
